@@ -497,7 +497,7 @@ if __name__ == '__main__':
 # eval_impl: error exits are located (C14); nothing is written after a failed write (C19)
 # ---------------------------------------------------------------------------------------------
 EVAL_IMPL = r'^fn vm::<impl at [^>]*>::eval_impl\('
-WRITE_CALLS = r'(output::Output::<[^>]*>::write_str\(|^write_escaped\(|Environment::<[^>]*>::format\(|as std::fmt::Write>::write_fmt\()'
+WRITE_CALLS = r'(output::Output::<[^>]*>::write_(?:str|fmt|char)\(|^write_escaped\(|^write_with_html_escaping\(|Environment::<[^>]*>::format\(|as std::fmt::Write>::write_fmt\()'
 
 
 def straight_region_calls(fn, preds, bid, limit=12):
@@ -593,18 +593,21 @@ def check_located(fn):
     return 'unsat', dict(kind='inconsistent location state (process_err inside the loop?)', calls=[]), dt, stats
 
 
-def check_no_write_after_failed_write(fn):
+def check_no_write_after_failed_write(fn, helper=False):
     """After the failure edge of a write (Output::write_str, write_escaped, Environment::format, write_fmt) no
     further write is reachable: F = 1 on the Err edge of the switchInt testing the write's result, and every
     block that calls a write needs F = 0."""
     adj, preds = cfg(fn)
     der, defcount = derive_map(fn)
     writes = {}
+    returned = set()
     for bid, b in fn['blocks'].items():
         if b['cleanup']:
             continue
         dst, callee = call_of(b['term'])
-        if dst and re.search(WRITE_CALLS, callee):
+        if dst and re.search(WRITE_CALLS + (r'|output::Output::<[^>]*>::write_char\(' if helper else ''), callee):
+            if helper and dst == '_0':
+                returned.add(bid)       # the write's own result is handed to the caller: nothing can follow it here
             writes[dst] = bid
 
     def origin(local):
@@ -620,6 +623,18 @@ def check_no_write_after_failed_write(fn):
                 form = 'disc'
             local = src
         return None
+    if helper:
+        # `_0 = map_err(move _w, ..)` / `_0 = move _w`: the write's result is what the function returns
+        for b in fn['blocks'].values():
+            dst, callee = call_of(b['term'])
+            if dst == '_0' and callee:
+                mm = re.search(r'map_err::<.*?>\((?:move|copy) (_\d+),', callee)
+                if mm and mm.group(1) in writes:
+                    returned.add(writes[mm.group(1)])
+            for st in b['stmts']:
+                mm = re.match(r'_0 = (?:move|copy) (_\d+);', st)
+                if mm and mm.group(1) in writes:
+                    returned.add(writes[mm.group(1)])
     s_ = z3.Solver()
     s_.set('timeout', 30000)
     D = {b: z3.Int('F_%s' % b) for b in fn['blocks'] if not fn['blocks'][b]['cleanup']}
@@ -643,7 +658,7 @@ def check_no_write_after_failed_write(fn):
                         eff = 1
             edges.append((bid, tgt, eff))
             s_.add(D[tgt] == D[bid] + eff)
-    untested = [b for b in writes.values() if b not in tested]
+    untested = [b for b in writes.values() if b not in tested and b not in returned]
     for b in writes.values():
         s_.add(D[b] == 0)
     t0 = time.time()
@@ -769,6 +784,105 @@ def check_out_of_fuel_origin(mir):
     return out
 
 
+def check_write_results_not_dropped(fn):
+    """Path-sensitive: after a write to an Output its result is PENDING (P := 1) until it is tested (the switch on
+    its discriminant), handed to the caller (`_0 = ..` derived from it) or propagated (`?` / map_err into `_0`); no
+    further write may start and the function may not return while a result is pending."""
+    adj, preds = cfg(fn)
+    der, defcount = derive_map(fn)
+    W = WRITE_CALLS + r'|output::Output::<[^>]*>::write_char\('
+    writes = {}
+    for bid, b in fn['blocks'].items():
+        if b['cleanup']:
+            continue
+        dst, callee = call_of(b['term'])
+        if dst and re.search(W, callee):
+            writes[dst] = bid
+
+    def from_write(local, depth=0):
+        if local in writes:
+            return True
+        if depth > 8 or local not in der or defcount[local] > 1:
+            return False
+        return from_write(der[local][0], depth + 1)
+    s_ = z3.Solver()
+    s_.set('timeout', 30000)
+    D = {b: z3.Int('P_%s' % b) for b in fn['blocks'] if not fn['blocks'][b]['cleanup']}
+    s_.add(D['bb0'] == 0)
+    n = 0
+    for bid, blk in fn['blocks'].items():
+        if blk['cleanup']:
+            continue
+        t = blk['term']
+        dst, callee = call_of(t)
+        is_write = bool(dst and callee and re.search(W, callee))
+        if is_write:
+            s_.add(D[bid] == 0)            # no write while an earlier result is pending
+        if t == 'return;':
+            s_.add(D[bid] == 0)
+        # the pending result is consumed by: a test of it, an assignment / call that moves it into _0
+        consumes = False
+        m = re.match(r'switchInt\((?:copy|move) (_\d+)\)', t)
+        if m and from_write(m.group(1)):
+            consumes = True
+        if dst == '_0' and callee:
+            mm = re.search(r'\((?:move|copy) (_\d+)[,)]', callee)
+            if mm and from_write(mm.group(1)):
+                consumes = True
+        for st in blk['stmts']:
+            mm = re.match(r'_0 = (?:move|copy) (_\d+);', st)
+            if mm and from_write(mm.group(1)):
+                consumes = True
+        for label, tgt in adj[bid]:
+            if label == 'ok' and is_write and dst == '_0':
+                s_.add(D[tgt] == 0)        # `_0 = write(..)`: handed to the caller at once
+            elif label == 'ok' and is_write:
+                s_.add(D[tgt] == 1)
+            elif consumes:
+                s_.add(D[tgt] == 0)
+            else:
+                s_.add(D[tgt] == D[bid])
+            n += 1
+    t0 = time.time()
+    r = s_.check()
+    dt = time.time() - t0
+    stats = dict(blocks=len(D), edges=n, write_calls=len(writes))
+    if r == z3.sat:
+        return 'sat', None, dt, stats
+    if r != z3.unsat:
+        return str(r), None, dt, stats
+    return 'unsat', dict(kind='the result of a write is dropped on some path (another write or the return is reached while it is pending)', calls=[]), dt, stats
+
+
+def check_success_comes_from_nested_render(mir):
+    """State::render_block_to_write: once the block render was attempted, `Ok` can only be the nested render's own
+    result: C := 1 after `call_block`, C = 0 required wherever `_0 = Ok(..)` is set directly."""
+    text = function_text(mir, r'^fn state::<impl at [^>]*>::render_block_to_write\(')
+    if text is None:
+        return None
+    fn = parse_function(text)
+    adj, preds = cfg(fn)
+    s_ = z3.Solver()
+    D = {b: z3.Int('C_%s' % b) for b in fn['blocks'] if not fn['blocks'][b]['cleanup']}
+    s_.add(D['bb0'] == 0)
+    calls = 0
+    for bid, blk in fn['blocks'].items():
+        if blk['cleanup']:
+            continue
+        if any(re.match(r'_0 = Result::<.*>::Ok\(', st) for st in blk['stmts']):
+            s_.add(D[bid] == 0)
+        _, callee = call_of(blk['term'])
+        hit = bool(callee and re.match(r'(?:vm::)?call_block\(', callee))
+        calls += hit
+        for label, tgt in adj[bid]:
+            s_.add(D[tgt] == (1 if (label == 'ok' and hit) else D[bid]))
+    r = s_.check()
+    res = dict(function='State::render_block_to_write', resource='no_write_after_failure', spec={}, verdict='sat' if (r == z3.sat and calls) else 'unsat', nested_calls=calls)
+    if res['verdict'] == 'unsat':
+        res['conflict'] = 'render_block_to_write can report success on a path on which the nested block render had already been attempted (a sink error can be swallowed)'
+    return res
+
+
 def analyse_eval_impl(mir):
     text = function_text(mir, EVAL_IMPL)
     if text is None:
@@ -782,6 +896,27 @@ def analyse_eval_impl(mir):
             r['conflict'] = info['kind']
             r['calls_a'] = info.get('calls')
         out.append(r)
+    # every other function that writes to an Output itself (the escaping helpers of utils.rs and whatever is added)
+    for m in re.finditer(r'^fn ([^\n(]+)\(', mir, re.M):
+        name = m.group(1)
+        if name.endswith('::eval_impl') or name.startswith('output::') or '{closure' in name:
+            continue
+        end = mir.index('\n}\n', m.start())
+        t = mir[m.start():end + 2]
+        if not re.search(r"output::Output::<[^>]*>::write_(str|fmt|char)\(", t):
+            continue
+        pf = parse_function(t)
+        verdict, info, dt, stats = check_no_write_after_failed_write(pf, helper=True)
+        if verdict == 'sat':
+            verdict, info, dt, stats = check_write_results_not_dropped(pf)
+        r = dict(function=name[-60:], resource='no_write_after_failure', spec={}, verdict=verdict, z3_s=round(dt, 3), **stats)
+        if info:
+            r['conflict'] = '%s: %s' % (name[-40:], info['kind'])
+            r['calls_a'] = info.get('calls')
+        out.append(r)
+    extra = check_success_comes_from_nested_render(mir)
+    if extra:
+        out.append(extra)
     return out
 
 
